@@ -1,7 +1,140 @@
 import Labella.Model.Render
+import Labella.Proofs.Rounding
+import Labella.Proofs.RenderLemmas
+import Mathlib.Algebra.Order.Field.Rat
+import Mathlib.Tactic.Ring
+import Mathlib.Tactic.Linarith
+import Mathlib.Tactic.NormNum
+import Labella.Props.C15
+/-! # C07 — every datum is drawn once, at its true time, linked to its own label
+
+`o` = renderer options (direction, node height = thickest label, layer gap); `n` = a label node after layout.
+Dots and ticks sit at the affine map of C12/C15 (`dots_affine`, `time_dots_affine` below restate it for the axis
+`[0, L]`); the link geometry is proved for all nodes and directions. -/
 namespace Labella.C07
 open Labella Labella.Render
 
-theorem placeholder_gap (o : ROpt) : gapOf o = o.layerGap + o.nodeHeight := rfl
+/-! ### truncation -/
+
+theorem trunc_close (x : ℚ) : |((truncToZero x : Int) : ℚ) - x| < 1 := by
+  exact truncToZero_close x
+
+theorem trunc_le_of_nonneg (x : ℚ) (h : 0 ≤ x) : ((truncToZero x : Int) : ℚ) ≤ x ∧ x - 1 < ((truncToZero x : Int) : ℚ) := by
+  exact truncToZero_of_nonneg x h
+
+theorem trunc_ge_of_nonpos (x : ℚ) (h : x ≤ 0) : x ≤ ((truncToZero x : Int) : ℚ) ∧ ((truncToZero x : Int) : ℚ) < x + 1 := by
+  exact truncToZero_of_nonpos x h
+
+/-! ### C07: the link -/
+
+/-- a node as the timeline builds it: one hop per layer up to its own, the last hop is the node itself, its extent
+along the axis is its drawn width (axis along x) or height (axis along y), and for direction `up` every label has
+the common thickness `nodeHeight` -/
+def WellBuilt (o : ROpt) (n : RNode) : Prop :=
+  n.hops.length = n.layer + 1 ∧ n.hops.getLast? = some n.cur ∧
+  (if o.dir.horizontalAxis then n.width = n.w else n.width = n.h) ∧
+  (o.dir = .up → n.h = o.nodeHeight)
+
+/-- the link starts at the datum's dot on the axis … -/
+theorem link_starts_at_dot (o : ROpt) (n : RNode) (hb : WellBuilt o n) :
+    (pathSteps o n).head? = some (Step.M (if o.dir.horizontalAxis then (n.ideal, 0) else (0, n.ideal))) := by
+  rw [pathSteps_eq]
+  rfl
+
+/-- … has one curve per layer it passes (the datum's stubs, then the label) … -/
+theorem link_one_curve_per_layer (o : ROpt) (n : RNode) (hb : WellBuilt o n) :
+    ((pathSteps o n).filter (fun s => match s with | .C _ _ _ => true | _ => false)).length = n.layer + 1 := by
+  rw [pathSteps_eq, List.filter_cons_of_neg (by simp),
+    pathLoop_curves (wpNear o) (wpFar o) _ _ (fun _ _ _ => rfl) (fun _ => rfl)]
+  rw [List.length_zipIdx]
+  exact hb.1
+
+/-- … and ends within 1 unit (coordinate truncation of the box origin) of the middle of the axis-facing edge of the
+datum's own box -/
+theorem link_ends_at_box (o : ROpt) (n : RNode) (hb : WellBuilt o n) (hnh : 0 ≤ o.nodeHeight) (hlg : 0 ≤ o.layerGap) :
+    linkEndsB o.dir 0 1 n.ideal (pathSteps o n) (modelBox o n) = true := by
+  obtain ⟨hlen, hlast, hwid, hup⟩ := hb
+  obtain ⟨init, hinit⟩ := List.getLast?_eq_some_iff.mp hlast
+  have hil : init.length = n.layer := by
+    rw [hinit] at hlen
+    simpa using hlen
+  obtain ⟨pre, c1, c2, hp⟩ := pathSteps_shape o n init hinit
+  rw [hp, hil]
+  have h0 : ptCloseB 0 (dotPt o n) (if o.dir.horizontalAxis then (n.ideal, 0) else (0, n.ideal)) = true := by
+    unfold dotPt ptCloseB
+    simp [ratAbs]
+  simp only [linkEndsB, List.getLast?_concat, Step.endPt, h0, Bool.true_and]
+  simp only [ptCloseB, Bool.and_eq_true, decide_eq_true_eq, ratAbs_eq_abs, modelBox_eq]
+  cases hd : o.dir
+  · -- up
+    rw [hd] at hwid
+    simp only [Dir.horizontalAxis, if_true] at hwid
+    have hh := hup hd
+    rw [wpNear_up o n hd, nodePos_up o n hd]
+    simp only [Box.facingMid]
+    have k1 := trunc_shift_close n.cur (n.width / 2)
+    have k2 := trunc_shift_close (-posOf o n) o.nodeHeight
+    rw [← hwid]
+    rw [hh]
+    exact ⟨le_of_lt k1, le_of_lt k2⟩
+  · -- down
+    rw [hd] at hwid
+    simp only [Dir.horizontalAxis, if_true] at hwid
+    rw [wpNear_down o n hd, nodePos_down o n hd]
+    simp only [Box.facingMid]
+    have k1 := trunc_shift_close n.cur (n.width / 2)
+    have k2 := trunc_shift_close (posOf o n) 0
+    rw [← hwid]
+    simp only [sub_zero, add_zero] at k2
+    exact ⟨le_of_lt k1, le_of_lt k2⟩
+  · -- left
+    rw [hd] at hwid
+    simp only [Dir.horizontalAxis] at hwid
+    have hwid' : n.width = n.h := by simpa using hwid
+    rw [wpNear_left o n hd, nodePos_left o n hd]
+    simp only [Box.facingMid]
+    have k1 := trunc_shift_close (-posOf o n) n.w
+    have k2 := trunc_shift_close n.cur (n.width / 2)
+    rw [← hwid']
+    have e : -posOf o n - o.nodeHeight - n.w + o.nodeHeight = -posOf o n - n.w := by ring
+    rw [e]
+    exact ⟨le_of_lt k1, le_of_lt k2⟩
+  · -- right
+    rw [hd] at hwid
+    simp only [Dir.horizontalAxis] at hwid
+    have hwid' : n.width = n.h := by simpa using hwid
+    rw [wpNear_right o n hd, nodePos_right o n hd]
+    simp only [Box.facingMid]
+    have k1 := trunc_shift_close (posOf o n) 0
+    have k2 := trunc_shift_close n.cur (n.width / 2)
+    rw [← hwid']
+    simp only [sub_zero, add_zero] at k1
+    exact ⟨le_of_lt k1, le_of_lt k2⟩
+
+/-- the box has the datum's size plus padding, and its extent along the axis is what the layout engine separated -/
+theorem box_size (dir : Dir) (pl pr pt pb H W : ℚ) (t : Bool) :
+    alongAxis dir (labelSize dir pl pr pt pb H W t) = (if dir.horizontalAxis then W + pl + pr else if t then H + pl + pr else W + pl + pr) := by
+  cases dir <;> cases t <;> simp [alongAxis, labelSize, Dir.horizontalAxis]
+
+
+/-! ### dots and ticks -/
+
+/-- numeric times: the dot of a datum is the affine image of its time, the axis domain maps onto `[0, L]` -/
+theorem dots_affine (d0 d1 L t : ℚ) (h : d0 ≠ d1) :
+    Scale.apply false d0 d1 0 L t = L * ((t - d0) / (d1 - d0)) ∧
+    Scale.apply false d0 d1 0 L d0 = 0 ∧ Scale.apply false d0 d1 0 L d1 = L := by
+  refine ⟨?_, (C12.endpoints false d0 d1 0 L h).1, (C12.endpoints false d0 d1 0 L h).2⟩
+  rw [C12.affine d0 d1 0 L t h]; ring
+
+/-- date/time values: the same with the instant in milliseconds exactly as supplied (time of day included) -/
+theorem time_dots_affine (d0 d1 : Int) (L : ℚ) (h : d0 ≠ d1) (t : Int) :
+    Calendar.timeApply d0 d1 0 L t = L * (((t - d0 : Int) : ℚ) / ((d1 - d0 : Int) : ℚ)) := by
+  have := C15.time_proportional d0 d1 0 L h d0 t
+  rw [(C15.time_endpoints d0 d1 0 L h).1] at this
+  linarith
+
+/-- a degenerate domain places every dot at the start of the axis -/
+theorem degenerate_dots_at_start (d L t : ℚ) : Scale.apply false d d 0 L t = 0 :=
+  C12.degenerate false d 0 L t
 
 end Labella.C07
